@@ -343,6 +343,28 @@ def run_ec(ctx):
                 t2 = copy.deepcopy(t)
                 t2["header"]["epk"] = fn(t2["header"]["epk"])
                 ops.append(("jwe.dec_jwk", {"jwe": t2, "jwk": pool[name], "rand": "00" * 64, "_refuse": True, "_site": "ec:invalid-epk", "_why": label + " on " + pool[name]["crv"]}))
+    # DIRECT key agreement (no key wrap behind it whose integrity check would hide a wrong agreement): an invalid ephemeral
+    # key, or a recipient key whose d does not belong to its point, must make the unwrap fail - it must not fall back to
+    # anything derivable from public values
+    mkd = [("jwe.enc", {"jwe": {"protected": {"alg": "ECDH-ES", "enc": "A128GCM"}}, "jwk": pool[name], "pt": "00", "rand": rng.randbytes(120).hex()}) for name, _, _ in pairs]
+    for i, ((name, oth, forn), r) in enumerate(zip(pairs, ctx.real(mkd))):
+        if not r.get("ok"):
+            continue
+        t = r["jwe"]
+        good = pool[name]
+        c = EC.CURVES[good["crv"]]
+        e0 = t["header"]["epk"]
+        ops.append(("jwe.dec_jwk", {"jwe": t, "jwk": good, "rand": "00" * 64, "_accept": True, "_site": "ec:invalid-epk", "_why": "direct ECDH-ES, genuine (%s)" % good["crv"]}))
+        for label, e2 in (("epk.y+1", dict(e0, y=G.b64u(((EC.point(e0)[1] + 1) % c["p"]).to_bytes(c["len"], "big")))),
+                          ("epk.x+1", dict(e0, x=G.b64u(((EC.point(e0)[0] + 1) % c["p"]).to_bytes(c["len"], "big")))),
+                          ("epk at the origin", dict(e0, x=G.b64u(bytes(c["len"])), y=G.b64u(bytes(c["len"])))),
+                          ("epk.y undecodable", dict(e0, y="!!")), ("epk without y", {k_: v_ for k_, v_ in e0.items() if k_ != "y"})):
+            t2 = copy.deepcopy(t)
+            t2["header"]["epk"] = e2
+            ops.append(("jwe.dec_jwk", {"jwe": t2, "jwk": good, "rand": "00" * 64, "_refuse": True, "_site": "ec:invalid-epk", "_why": "direct ECDH-ES, %s on %s" % (label, good["crv"])}))
+            ops.append(("jwe.dec", {"jwe": t2, "jwk": good, "rand": "00" * 64, "_refuse": True, "_site": "ec:invalid-epk", "_why": "direct ECDH-ES decrypt, %s on %s" % (label, good["crv"])}))
+        dbad = dict(good, d=G.b64u(((EC.scalar(good) + 1) % c["n"]).to_bytes(len(G.b64d(good["d"])), "big")))
+        ops.append(("jwe.dec_jwk", {"jwe": t, "jwk": dbad, "rand": "00" * 64, "_refuse": True, "_site": "ec:invalid-key", "_why": "direct ECDH-ES, recipient d+1 on %s" % good["crv"]}))
     # a member that is present but is not decodable text is not read as absent (EC twin of the RSA rule): verification
     # and exchange with such a key fail
     for i, (name, oth, forn) in enumerate(pairs):
